@@ -11,6 +11,8 @@ from .values import (Const, DictV, ListV, SetV, StrV, Sym, Term, TupleV, V, is_e
 NUM = {"int", "float", "bool"}
 SIZED = {"str", "list", "dict", "tuple", "set", "bytes", "sequence", "frozenset", "PathHolder"}
 ITERABLE = SIZED | {"generator", "iterator"}
+# kinds whose str()/repr() never converts an int of unbounded size to decimal digits
+RENDER_SAFE = {"str", "float", "bool", "bytes", "NoneType", "date", "datetime", "UUID", "type", "PathHolder", "index"}
 
 
 def _caught(interp_like: Any, exc: Any, handlers: Tuple[Any, ...]) -> bool:
@@ -153,6 +155,21 @@ def escapes(p: Path, e: Event, *, value_kinds: Optional[Dict[str, str]] = None) 
             if operands and _known_nonempty(operands[0], p, e):
                 continue
             why = f"{op}() of a possibly empty iterable"
+        elif op == "format-spec":
+            from .interp_expr import _spec_fits
+            a = operands[0]
+            if _spec_fits(kind(a), d.get("spec")):
+                continue
+            why = f"format spec {d.get('spec')!r} applied to {a.key()[:40]} of kind {kind(a)}"
+        elif op == "render":
+            a = operands[0]
+            ak = kind(a)
+            if ak in RENDER_SAFE:
+                continue
+            if isinstance(a, Term) and a.op == "len":
+                continue        # a length is bounded by memory
+            why = (f"str()/repr() of {a.key()[:40]} (kind {ak}): an int beyond sys.get_int_max_str_digits(), alone or "
+                   "inside a container, raises ValueError")
         elif op == "accept":
             why = "`...`/Nil marker used as a schema"
         else:
